@@ -148,6 +148,7 @@ func (r *Runtime) arrayproto_pop(call FunctionCall) Value {
 			//a._setLengthInt(l, false)
 			a.values[l] = nil
 			a.values = a.values[:l]
+			a.objCount--
 		} else {
 			val = _undefined
 		}
